@@ -2099,8 +2099,19 @@ static int dfs_copy(vnaproperty_t **destination, const vnaproperty_t *source)
  */
 int vnaproperty_copy(vnaproperty_t **destination, const vnaproperty_t *source)
 {
+    vnaproperty_t *copy = NULL;
+
+    /*
+     * Build the copy first: source may be the destination tree itself
+     * or a subtree of it.
+     */
+    if (dfs_copy(&copy, source) == -1) {
+	(void)vnaproperty_delete(&copy, ".");
+	return -1;
+    }
     (void)vnaproperty_delete(destination, ".");
-    return dfs_copy(destination, source);
+    *destination = copy;
+    return 0;
 }
 
 
